@@ -115,6 +115,17 @@ type ZDocUP struct {
 	Title string
 }
 
+type ZTally int
+
+func (t ZTally) Twice() int    { return int(t) * 2 }
+func (t *ZTally) Bump() int    { return int(*t) + 1 }
+func (t ZTally) Add(n int) int { return int(t) + n }
+
+type ZStack []string
+
+func (s ZStack) Depth() int   { return len(s) }
+func (s *ZStack) Top() string { return (*s)[len(*s)-1] }
+
 type ZOuter struct {
 	ZBase
 	*ZPEmb
@@ -136,6 +147,8 @@ type ZOuter struct {
 	MA     map[string]interface{}
 	MP     map[string]*ZInner
 	MK     map[interface{}]string
+	Tally  ZTally // defined non-struct types with value and pointer methods
+	Stack  ZStack
 	M8     map[uint8]string  // keys that a number may not fit
 	PM     *map[string]int   // a map behind a pointer
 	ME     map[string]string // has the empty string as a key
@@ -185,9 +198,10 @@ func zooRoot(variant int) interface{} {
 		M:   map[string]int{"one": 1, "zero": 0}, MI: map[int]string{1: "i-one", 2: ""}, MN: map[ZKey]string{"nk": "named-key-value"},
 		MA:    map[string]interface{}{"s": "str", "n": nil, "in": &ZInner{Val: 1, Name: "ma-in"}, "m": map[string]int{"deep": 99}},
 		MP:    map[string]*ZInner{"p": {Val: 2, Name: "mp-p"}, "nilp": nil},
+		Tally: 5, Stack: ZStack{"bottom", "top"},
 		M8:    map[uint8]string{44: "under-44", 0: "under-0"},
 		PM:    &map[string]int{"pk": 5},
-		MK:    map[interface{}]string{"ik": "interface-key", ZKey("ik"): "entry-under-a-key-of-a-defined-string-type", 7: "entry-under-an-int-key"},
+		MK:    map[interface{}]string{"ik": "interface-key", ZKey("ik"): "entry-under-a-key-of-a-defined-string-type", 7: "entry-under-an-int-key", ZKey("only-named"): "entry-whose-key-exists-as-ZKey-only", "only-plain": "entry-whose-key-exists-as-string-only"},
 		ME:    map[string]string{"": "value-under-empty-key", "k": "v"},
 		Iface: ZInner{Val: 5, Name: "iface-inner"},
 		SF:    ZShadowFirst{Title: "sf-outer-title", ZBase: ZBase{ID: 1, Title: "sf-base-title"}},
@@ -256,7 +270,8 @@ type zStep struct {
 }
 
 // variables that C06 / C17 templates can use as keys of the interface-keyed map
-var zIfaceKeys = map[string]interface{}{"keyNamed": ZKey("ik"), "keyPlain": "ik", "keyInt": 7, "keyAbsent": ZKey("nope"), "keySlice": []int{1}}
+var zIfaceKeys = map[string]interface{}{"keyNamed": ZKey("ik"), "keyPlain": "ik", "keyInt": 7, "keyAbsent": ZKey("nope"), "keySlice": []int{1},
+	"keyOnlyNamed": ZKey("only-named"), "keyPlainOfNamed": "only-named", "keyNamedOfPlain": ZKey("only-plain")}
 
 type zStatus int
 
@@ -443,6 +458,25 @@ func zOptions(v reflect.Value) (valid, invalid []zStep) {
 	if isNil && d.Kind() != reflect.Map {
 		return nil, []zStep{{Kind: "field", Name: "Name"}, {Kind: "index", I: 0}, {Kind: "field", Name: "Val"}, {Kind: "method", Name: "Hello"}}
 	}
+	// methods (value receivers always; pointer receivers when the value is reached through a pointer)
+	addMethods := func(t reflect.Type) {
+		pt := reflect.PtrTo(t)
+		throughPtr := v.Kind() == reflect.Ptr || d.CanAddr()
+		for i := 0; i < pt.NumMethod(); i++ {
+			m := pt.Method(i)
+			_, onValue := t.MethodByName(m.Name)
+			if !onValue && !throughPtr {
+				continue
+			}
+			if m.Type.NumIn() > 2 || m.Type.NumOut() != 1 {
+				continue
+			}
+			valid = append(valid, zStep{Kind: "method", Name: m.Name, Arg: 3})
+		}
+	}
+	if d.Kind() != reflect.Struct && d.Kind() != reflect.Interface && d.Type().PkgPath() != "" {
+		addMethods(d.Type()) // defined types of other kinds have methods too
+	}
 	switch d.Kind() {
 	case reflect.Struct:
 		t := d.Type()
@@ -483,20 +517,7 @@ func zOptions(v reflect.Value) (valid, invalid []zStep) {
 				invalid = append(invalid, zStep{Kind: "field", Name: n})
 			}
 		}
-		// methods (value receivers always; pointer receivers when the value is reached through a pointer)
-		pt := reflect.PtrTo(t)
-		throughPtr := v.Kind() == reflect.Ptr || d.CanAddr()
-		for i := 0; i < pt.NumMethod(); i++ {
-			m := pt.Method(i)
-			_, onValue := t.MethodByName(m.Name)
-			if !onValue && !throughPtr {
-				continue
-			}
-			if m.Type.NumIn() > 2 || m.Type.NumOut() != 1 {
-				continue
-			}
-			valid = append(valid, zStep{Kind: "method", Name: m.Name, Arg: 3})
-		}
+		addMethods(t)
 		invalid = append(invalid, zStep{Kind: "field", Name: "NoSuchField"}, zStep{Kind: "method", Name: "NoSuchMethod"}, zStep{Kind: "index", I: 0})
 	case reflect.Map:
 		keys := d.MapKeys()
@@ -517,7 +538,7 @@ func zOptions(v reflect.Value) (valid, invalid []zStep) {
 		} else if d.Type().Key().Kind() == reflect.Interface {
 			// interface-keyed map: the key is a variable, and its dynamic type is part of the key
 			// (unhashable keys: C17's dedicated form)
-			for _, name := range []string{"keyNamed", "keyPlain", "keyInt", "keyAbsent"} {
+			for _, name := range []string{"keyNamed", "keyPlain", "keyInt", "keyAbsent", "keyOnlyNamed", "keyPlainOfNamed", "keyNamedOfPlain"} {
 				valid = append(valid, zStep{Kind: "ikey", Var: name})
 			}
 			invalid = append(invalid, zStep{Kind: "ikey", Var: "keySlice"}) // a key that cannot be hashed
